@@ -54,11 +54,11 @@ fn check_mbap(v: &VerifIo, tx: u16, unit: u8, pdu: &[u8]) {
     }
 }
 
-//@ props: C17 C01 C02 C20
+//@ props: C17 C01 C02
 //@ peer: yes
 //@ timeout: 1500
 //@ fns: server::task::SessionTask::handle_frame (whole), server::request::Request::parse, Request::get_reply, server::handler::ServerHandlerMap::get, common::frame::FrameWriter::format_reply, common::phys::PhysLayer::write
-//@ bounds: MBAP, write single register (fc 6) with every index/value, EVERY unit id 0..=255 against a map holding unit 17, every transaction id, every handler result, all decode levels; MAX_ADU_LENGTH = 13 (hook H3)
+//@ bounds: MBAP, write single register (fc 6) with every index/value, EVERY unit id 0..=255 against a map holding unit 17, every transaction id, every handler result, decode level nothing (the kernels carry the symbolic level); MAX_ADU_LENGTH = 13 (hook H3)
 //@ stubs: transport = VerifIo; short frames (hook H3)
 /// a valid write addressed to the configured unit is executed once and echoed; addressed to any other unit it
 /// has no effect and NOTHING is written
@@ -67,7 +67,7 @@ fn check_mbap(v: &VerifIo, tx: u16, unit: u8, pdu: &[u8]) {
 fn c17_glue_write_register_unit_filter() {
     let t = Tables::any();
     let h: Shared = VH::new(t, 0).wrap();
-    let level = any_decode_level();
+    let level = DecodeLevel::nothing();
     let (mut s, ctx) = session(ServerHandlerMap::single(UnitId::new(UNIT), h.clone()), AuthorizationType::None, false, level);
     let mut io = PhysLayer::new_verif(VerifIo::new());
     let unit: u8 = kani::any();
@@ -98,24 +98,22 @@ fn c17_glue_write_register_unit_filter() {
 //@ peer: yes
 //@ timeout: 1500
 //@ fns: server::task::SessionTask::handle_frame, SessionTask::reply_with_error, server::request::Request::parse (error path)
-//@ bounds: MBAP, malformed write-single-coil requests (fc 5): every 4-byte body with an undefined coil value and every truncated body of 0..=3 bytes; every unit id against a map holding unit 17
+//@ bounds: MBAP, malformed write-single-coil requests (fc 5): every 4-byte body with an undefined coil value; every unit id against a map holding unit 17
 /// a malformed request addressed to the configured unit is answered with exception 03 and reaches no handler;
 /// addressed to an unconfigured unit it is not answered at all
 #[kani::proof]
 #[kani::unwind(14)]
 fn c17_glue_malformed_request() {
     let h: Shared = VH::new(Tables::any(), 0).wrap();
-    let (mut s, ctx) = session(ServerHandlerMap::single(UnitId::new(UNIT), h.clone()), AuthorizationType::None, false, any_decode_level());
+    let (mut s, ctx) = session(ServerHandlerMap::single(UnitId::new(UNIT), h.clone()), AuthorizationType::None, false, DecodeLevel::nothing());
     let mut io = PhysLayer::new_verif(VerifIo::new());
     let unit: u8 = kani::any();
     let tx: u16 = kani::any();
     let b: [u8; 4] = kani::any();
-    let len: usize = kani::any();
-    kani::assume(len <= 4);
     let v16 = be16(b[2], b[3]);
-    kani::assume(len < 4 || (v16 != 0xFF00 && v16 != 0x0000));
-    let pdu = [5, b[0], b[1], b[2], b[3]];
-    let res = block_on(s.handle_frame(&mut io, frame_of(false, unit, tx, &pdu[..1 + len])));
+    kani::assume(v16 != 0xFF00 && v16 != 0x0000);
+    let len = 4;
+    let res = block_on(s.handle_frame(&mut io, frame_of(false, unit, tx, &[5, b[0], b[1], b[2], b[3]])));
     assert!(res.is_ok(), "[C07] the session continues after a malformed request");
     let (calls, ..) = log_of(&h);
     assert!(calls == 0, "[C02] a malformed request never reaches a handler");
@@ -125,22 +123,19 @@ fn c17_glue_malformed_request() {
     } else {
         assert!(v.writes == 0, "[C17] a malformed request for an unconfigured unit id is not answered");
     }
-    kani::cover!(unit == UNIT && len == 4, "undefined coil value answered with exception 03");
-    kani::cover!(unit != UNIT && len < 4, "truncated request to another unit");
+    kani::cover!(unit == UNIT, "undefined coil value answered with exception 03");
+    kani::cover!(unit != UNIT, "malformed request to another unit");
     std::mem::forget((io, s, ctx, h));
 }
 
 fn unknown_function(fc: u8) {
     let h: Shared = VH::new(Tables::any(), 0).wrap();
-    let (mut s, ctx) = session(ServerHandlerMap::single(UnitId::new(UNIT), h.clone()), AuthorizationType::None, false, any_decode_level());
+    let (mut s, ctx) = session(ServerHandlerMap::single(UnitId::new(UNIT), h.clone()), AuthorizationType::None, false, DecodeLevel::nothing());
     let mut io = PhysLayer::new_verif(VerifIo::new());
     let unit: u8 = kani::any();
     let tx: u16 = kani::any();
     let extra: [u8; 2] = kani::any();
-    let len: usize = kani::any();
-    kani::assume(len <= 2);
-    let pdu = [fc, extra[0], extra[1]];
-    let res = block_on(s.handle_frame(&mut io, frame_of(false, unit, tx, &pdu[..1 + len])));
+    let res = block_on(s.handle_frame(&mut io, frame_of(false, unit, tx, &[fc, extra[0], extra[1]])));
     assert!(res.is_ok(), "[C07] the session continues");
     let (calls, ..) = log_of(&h);
     assert!(calls == 0, "[C02] an unsupported function reaches no handler");
@@ -159,17 +154,26 @@ fn unknown_function(fc: u8) {
 //@ peer: yes
 //@ timeout: 1500
 //@ fns: server::task::SessionTask::handle_frame, SessionTask::reply_with_error_generic, common::function::FunctionCode::get
-//@ bounds: MBAP, unsupported function codes 0x00, 0x07, 0x2B, 0x80 and 0xFF (representatives; the full table is c01_function_code_table) with 0..=2 trailing bytes, every unit id against a map holding unit 17
+//@ bounds: MBAP, unsupported function code 0x2B (representative; the full table is c01_function_code_table) with 2 arbitrary trailing bytes, every unit id against a map holding unit 17
 #[kani::proof]
 #[kani::unwind(14)]
 fn c17_glue_unknown_function_q() {
-    let k: u8 = kani::any();
-    match k {
-        0 => unknown_function(0x00),
-        1 => unknown_function(0x07),
-        2 => unknown_function(0x2B),
-        3 => unknown_function(0x80),
-        _ => unknown_function(0xFF),
+    unknown_function(0x2B);
+}
+
+//@ props: C17 C01 C02
+//@ peer: yes
+//@ tier: thorough
+//@ timeout: 3600
+//@ fns: server::task::SessionTask::handle_frame, SessionTask::reply_with_error_generic
+//@ bounds: MBAP, unsupported function codes 0x00 and 0xFF with 2 trailing bytes, every unit id
+#[kani::proof]
+#[kani::unwind(14)]
+fn c17_glue_unknown_function_t() {
+    if kani::any() {
+        unknown_function(0x00);
+    } else {
+        unknown_function(0xFF);
     }
 }
 
@@ -183,7 +187,7 @@ fn c17_glue_unknown_function_q() {
 fn c17_glue_empty_frame() {
     let h: Shared = VH::new(Tables::any(), 0).wrap();
     let rtu: bool = kani::any();
-    let (mut s, ctx) = session(ServerHandlerMap::single(UnitId::new(UNIT), h.clone()), AuthorizationType::None, rtu, any_decode_level());
+    let (mut s, ctx) = session(ServerHandlerMap::single(UnitId::new(UNIT), h.clone()), AuthorizationType::None, rtu, DecodeLevel::nothing());
     let mut io = PhysLayer::new_verif(VerifIo::new());
     let res = block_on(s.handle_frame(&mut io, frame_of(rtu, kani::any(), kani::any(), &[])));
     assert!(res.is_ok(), "[C07] the session continues");
@@ -208,7 +212,7 @@ fn c17_glue_broadcast_write() {
     let h2: Shared = VH::new(Tables::any(), 0).wrap();
     let mut map = ServerHandlerMap::single(UnitId::new(UNIT), h1.clone());
     map.add(UnitId::new(42), h2.clone());
-    let (mut s, ctx) = session(map, AuthorizationType::None, true, any_decode_level());
+    let (mut s, ctx) = session(map, AuthorizationType::None, true, DecodeLevel::nothing());
     let mut io = PhysLayer::new_verif(VerifIo::new());
     let b: [u8; 4] = kani::any();
     let res = block_on(s.handle_frame(&mut io, frame_of(true, 0, 0, &[6, b[0], b[1], b[2], b[3]])));
@@ -226,21 +230,17 @@ fn c17_glue_broadcast_write() {
 //@ peer: yes
 //@ timeout: 2400
 //@ fns: server::task::SessionTask::handle_frame (broadcast arm, reads and errors), SessionTask::reply_with_error_generic (broadcast guard)
-//@ bounds: RTU broadcast: a read-holding-registers request (valid or malformed), and an unsupported function code; one configured unit
+//@ bounds: RTU broadcast: a read-holding-registers request (valid or malformed: any 4-byte body); one configured unit
 /// reads addressed to unit 0 are ignored; malformed and unsupported broadcasts are not answered either
 #[kani::proof]
 #[kani::unwind(14)]
 fn c17_glue_broadcast_ignored() {
     let h: Shared = VH::new(Tables::any(), 0).wrap();
-    let (mut s, ctx) = session(ServerHandlerMap::single(UnitId::new(UNIT), h.clone()), AuthorizationType::None, true, any_decode_level());
+    let (mut s, ctx) = session(ServerHandlerMap::single(UnitId::new(UNIT), h.clone()), AuthorizationType::None, true, DecodeLevel::nothing());
     let mut io = PhysLayer::new_verif(VerifIo::new());
     let b: [u8; 4] = kani::any();
-    let res = if kani::any() {
-        // read: valid or not (count may be 0 / too large / overflowing)
-        block_on(s.handle_frame(&mut io, frame_of(true, 0, 0, &[3, b[0], b[1], b[2], b[3]])))
-    } else {
-        block_on(s.handle_frame(&mut io, frame_of(true, 0, 0, &[0x2B, b[0]])))
-    };
+    // read: valid or not (count may be 0 / too large / overflowing)
+    let res = block_on(s.handle_frame(&mut io, frame_of(true, 0, 0, &[3, b[0], b[1], b[2], b[3]])));
     assert!(res.is_ok(), "[C07] the session continues");
     let (calls, ..) = log_of(&h);
     assert!(calls == 0, "[C17] a read addressed to unit 0 is ignored");
@@ -282,7 +282,7 @@ fn c08_glue_deny_has_no_effect() {
     let allow: bool = kani::any();
     P_ALLOW.store(allow as u8, Relaxed);
     let auth = AuthorizationType::Handler(Arc::new(Policy), String::from("role"));
-    let (mut s, ctx) = session(ServerHandlerMap::single(UnitId::new(UNIT), h.clone()), auth, false, any_decode_level());
+    let (mut s, ctx) = session(ServerHandlerMap::single(UnitId::new(UNIT), h.clone()), auth, false, DecodeLevel::nothing());
     let mut io = PhysLayer::new_verif(VerifIo::new());
     let unit: u8 = kani::any();
     let tx: u16 = kani::any();
@@ -311,7 +311,8 @@ fn c08_glue_deny_has_no_effect() {
 
 //@ props: C08
 //@ peer: yes
-//@ timeout: 3000
+//@ tier: thorough
+//@ timeout: 5400
 //@ fns: server::task::SessionTask::handle_frame called twice on the same session
 //@ bounds: MBAP, two consecutive write-single-register requests on one session: the first allowed, the second denied (and vice versa); same or different unit/index
 /// the decision is taken per request: an earlier allow never carries over to a later request
@@ -341,9 +342,10 @@ fn c08_glue_decision_per_request() {
     std::mem::forget((io, s, ctx, h));
 }
 
-//@ props: C01 C02 C17 C20
+//@ props: C01 C02 C17
 //@ peer: yes
-//@ timeout: 3000
+//@ tier: thorough
+//@ timeout: 5400
 //@ fns: server::task::SessionTask::handle_frame, server::request::Request::get_reply (read arm), common::serialize::<RegisterWriter as Serialize>::serialize
 //@ bounds: MBAP, read holding registers with quantity 1..=2 (and every invalid quantity/range), every unit id against a map holding unit 17, symbolic point table incl. an exception address
 #[kani::proof]
@@ -351,7 +353,7 @@ fn c08_glue_decision_per_request() {
 fn c01_glue_read_registers() {
     let t = Tables::any();
     let h: Shared = VH::new(t, 0).wrap();
-    let (mut s, ctx) = session(ServerHandlerMap::single(UnitId::new(UNIT), h.clone()), AuthorizationType::None, false, any_decode_level());
+    let (mut s, ctx) = session(ServerHandlerMap::single(UnitId::new(UNIT), h.clone()), AuthorizationType::None, false, DecodeLevel::nothing());
     let mut io = PhysLayer::new_verif(VerifIo::new());
     let unit: u8 = kani::any();
     let tx: u16 = kani::any();
